@@ -13,16 +13,16 @@ NA = {
 CLAIMED = {
  "C01": ("exploration", "seeded simulation of filter histories (eviction RNG, collision-forcing hashers, Full outcomes, unions) against a key-level liveness model; minimised replay files",
          "Seeded search over histories of insert/delete/union/clear on all four Filter implementations with the simulator owning every eviction draw and the hash placement; after every operation every live key must be reported. Sampling, not proof.",
-         "Trusts the harness's own model and the black-box key universe (<=96 keys per run); histories <=200 operations; tables <=2^12 slots."),
+         "Small scale: black-box key universe (<=96 keys per run), histories <=200 operations; large scale (S1L): exact key-level model with full-width fingerprints, tables up to 2^18 slots, sampled comparison plus a final full sweep; union with a mismatched operand is only judged when it returns Ok."),
  "C12": ("fault_enumeration", "fault enumeration over failure positions of insert/union (clone-and-try against an evolving base state, several RNG salts) with whole-state comparison",
          "For generated base states the failing call is enumerated: every key of the universe under several eviction streams (insert) and a fixed operand against a filter filling up one element at a time (union fails at first/middle/last transfer); on every Err the complete observable state (len, is_empty, query over the universe, remaining delete counts) must equal the state before.",
-         "Observable state = the universe of the run (<=96 keys); the failure position inside a cuckoo union is only known up to the free capacity."),
+         "Observable state = the universe of the run (<=96 keys) at small scale; at large scale (S1L, up to 2^18 slots) failed inserts are compared on a sample and every held copy is drained at the end; the failure position inside a cuckoo union is only known up to the free capacity. A run that does not terminate is reported as a violation by the watchdog."),
  "C13": ("exploration", "seeded simulation with an Identity hasher placing quotient/remainder directly; refinement against a set of black-box derived fingerprint classes after every operation",
          "Refinement of QuotientFilter against a set model over seeded histories with simulator-chosen slot placement (wrap-around, multi-run clusters, full tables are probed and counted); return values of insert checked against the statement.",
-         "Classes are derived per run from single-element filters; universes <=96 keys, q<=12."),
+         "Classes are derived per run from single-element filters; universes <=96 keys, q<=12 at small scale; S1L adds tables of 2^8..2^14 slots filled to capacity with an exact key-level model (full-width fingerprints)."),
  "C14": ("exploration", "seeded simulation of insert/delete histories with injected eviction outcomes (tape of extreme RNG words, salts) against a class multiset model, delete-counting on clones",
          "Refinement of CuckooFilter against a multiset of fingerprint classes under simulator-owned eviction randomness; len, query over the universe, delete results and remaining multiplicities checked.",
-         "Classes derived per run black-box; tiny tables dominate (2-8 buckets) with 10% realistic sizes."),
+         "Classes derived per run black-box; tiny tables dominate (2-8 buckets) with 10% realistic sizes; S1L adds tables up to 2^17 buckets, buckets of 255..512 slots and 48..64-bit fingerprints with an exact key-level model."),
 
  "C05": ("exploration", "batches of sampler runs over SimRng seeds per (k, n) cell; inclusion counts of every stream position and of regions tested against k/n at z = 6 with the documented-approximation allowance beyond n = 4k+1",
          "The probability in the statement is over the injected RNG, which the simulator owns: per (k, n) cell 2*10^5 (k<=16) or 2*10^4 (k=64) sampler runs with distinct RNG streams; exact test while n <= 4k+1, calibrated allowance (1+ln(n/4k))/k beyond (a textbook implementation uses about half of it).",
@@ -53,7 +53,7 @@ CLAIMED = {
          "Weights are bounded (generator and executor guard) so that no counter overflows: overflow panics are documented unwraps, not part of the statement."),
  "C06": ("exploration", "simulated network of 2-5 replicas per structure kind (reordering, duplication, loss, partitions with blocked deliveries, restarts, Full on union, HLL snapshots through JSON bytes) with a refinement check against a fresh sequentially-fed instance after every delivery, algebraic probes on clones and a fault-free convergence phase",
          "The multi-party property: after every successful delivery the receiver is observationally equal to a fresh instance of the same configuration fed the receiver's logical content (cuckoo: equal to the class multiset), the shipped snapshot is unchanged, a Full union leaves the receiver unchanged; commutativity / associativity / idempotence are probed on clones; after faults stop all nodes converge.",
-         "Observational equality is over the run's key universe (<= 40 keys incl. never-ingested probes) plus len / count / registers / is_empty."),
+         "Observational equality is over the run's key universe (<= 40 keys incl. never-ingested probes) plus len / count / registers / is_empty; S1L adds unions of large filters (one-cluster operands, >2^16 slots / buckets, operands with holes) against an exact key-level model."),
  "C17": ("exploration", "at-least-once stream transport simulation: the same multiset of hashes (boundary catalogue) is delivered to 2-4 HyperLogLog nodes in different orders and multiplicities through add_hashed and add (Identity / Sip / masked hashers); registers compared with the rule of the statement after every add",
          "Permutation and repetition of adds are what a reordering, duplicating transport produces; all nodes must agree and every touched register must equal the statement's rule (max over addressed hashes of the first-set-bit position), add must equal add_hashed(hash_one), reconstruction from registers must be equal.",
          "All 15 precisions, <= 600 items per run."),
